@@ -4,17 +4,6 @@ Require Import SF.Prelude SF.Value SF.Dtype SF.Reduce Gen.Gen_c15_table.
 From Coq Require Import QArith.
 Local Open Scope Z_scope.
 
-(* all-bool frame in two blocks: sum(axis=0) is stored into a bool `out` and saturates (True, not 2) *)
-Theorem C15_bool_blocks_sum_refuted :
-  exists bs, wf_frame 2 bs = true /\
-    M_frame c15_table Fsum 0 true 0 2 bs = Ok [ONum (1 # 1); ONum (1 # 1)] /\
-    reduce_match (S_frame Fsum 0 true 0 2 (frame_cells bs)) [] (Ok ([], [VInt 2; VInt 1])) = true.
-Proof.
-  exists [(DBool, B1 [VBool true; VBool true]); (DBool, B1 [VBool true; VBool false])].
-  vm_compute. repeat split; reflexivity.
-Qed.
-Print Assumptions C15_bool_blocks_sum_refuted.
-
 (* one row, two blocks, skipna=False: the size_one_unity shortcut raises ValueError; the specification has a value *)
 Theorem C15_one_row_unity_refuted :
   exists bs, wf_frame 1 bs = true /\
